@@ -26,7 +26,14 @@ def main(tier="quick", seed=1, replay=None):
     except ImportError:
         statestore = None
     if statestore is not None:
-        hrc, hcov, hviol = statestore.run_history(PID, tier, seed)
+        try:
+            hrc, hcov, hviol = statestore.run_history(PID, tier, seed)
+        except lib.InfraError as ex:
+            if rc != 1:
+                raise
+            # a violation was already observed on the real code; the broken tree also breaks the history harness
+            lib.log("history half could not run on this tree (%s); verdict stands on the static half" % str(ex)[:300])
+            hrc, hcov, hviol = 0, {"skipped": str(ex)[:300]}, 0
         rc = max(rc, hrc)
         nviol += hviol
         extra["history"] = hcov
